@@ -6,7 +6,9 @@
                answer the same questions: every ordered pair of a pool of operand expressions x every binary operator,
                inline-if triples, reference-parameter calls, areEquivalent with wrappers on either side  (tie C)
  4 search      the property itself is evaluated on the implementation's verdicts (symmetry oracle): every deviation
-               is a finding with a concrete failing expression as replay
+               is a finding with a concrete failing expression as replay.  Beyond the pool: a family of separately written
+               range / array-index types whose bounds are spelled differently (SPELLINGS), and the commutative operators
+               inside queries, which have acceptance rules of their own (QUERY_CONTEXTS; oracle only, no model)
 """
 import json
 import os
@@ -45,6 +47,8 @@ int fi() { return 1; }
 Rc fr() { return r; }
 double fd() { return 1.0; }
 bool fb() { return true; }
+const int Z = 0; const int LO = 1;
+%(spelled)s
 %(functions)s
 process P(int &pri, const int pci, S &prs, const S pcs, Rc &prr, const Rc &pcrr, clock &prx, int &pra[3], bool &prb,
           double &prd, chan &prc, broadcast chan &prbc, int[0,3] &prbi) {
@@ -87,6 +91,39 @@ REFPARAMS = [
     ("chan", "chan &p", None), ("uchan", "urgent chan &p", None), ("bchan", "broadcast chan &p", None),
 ]
 CHANNEL_PARAMS = {"chan", "uchan", "bchan"}
+
+# Range bounds are compared structurally (expression_t::equal), so two types written in two places are equivalent exactly when
+# their bounds are spelled the same.  The family below declares the same three shapes -- int[<s>,3], int[-3,<s>] and an array
+# indexed by int[<s>,2] -- once per spelling of <s>: literals, named constants and arithmetic over a named constant, with values
+# that coincide across spellings (0 is also what the value slot of every non-literal node holds, 1 is not).  No two members share a
+# typedef or a declaration, so the pointer-equality shortcut of equal() never answers for them; every ordered pair is asked, so
+# each spelling is on the receiver side of equal() once (argument vs reference parameter, left vs right operand of == / !=).
+SPELLINGS = [("0", "0"), ("1", "1"), ("Z", "Z"), ("LO", "LO"), ("Nm3", "N-3"), ("Nm2", "N-2")]
+SPELLED = []        # (variable, declared type text or None for the arrays)
+SPELLED_DECLS = []
+for _n, _s in SPELLINGS:
+    SPELLED_DECLS.append("int[%s,3] vl_%s; int[-3,%s] vu_%s; int al_%s[int[%s,2]];" % (_s, _n, _s, _n, _n, _s))
+    SPELLED += [("vl_" + _n, "int[%s,3]" % _s), ("vu_" + _n, "int[-3,%s]" % _s), ("al_" + _n, None)]
+    REFPARAMS += [("vl_" + _n, "int[%s,3] &p" % _s, "const int[%s,3] &p" % _s), ("vu_" + _n, "int[-3,%s] &p" % _s, None),
+                  ("al_" + _n, "int &p[int[%s,2]]" % _s, None)]
+POOL += [("-", v, "") for v, _ in SPELLED]
+
+# Queries.  visitProperty adds rules that no expression of a model meets (nesting of path quantifiers, what may be observed in
+# `{ observations } control: goal`), so the commutative operators are also asked inside every query form that takes a state
+# predicate, in both operand orders.  (operand text, its terminal kind -- only used to name a finding)
+QUERY_OPERANDS = [("i", "INT"), ("bi", "INT"), ("b", "BOOL"), ("d", "DOUBLE"), ("x", "CLOCK"), ("y", "CLOCK"), ("x - y", "DIFF"),
+                  ("0", "INT"), ("1", "INT"), ("true", "BOOL"), ("1.5", "DOUBLE"), ("ci", "INT"), ("cb", "BOOL"), ("mi", "INT"),
+                  ("(i + 1)", "INT"), ("(x < 3)", "GUARD"), ("(1 <= x)", "GUARD"), ("(x == 3)", "GUARD"), ("(x - y < 2)", "GUARD"),
+                  ("(b && x < 3)", "GUARD"), ("s", "SCALAR"), ("r", "RECORD"), ("arr", "ARRAY"), ("arr[0]", "INT"), ("fi()", "INT"),
+                  ("c", "CHANNEL")]
+OBS_OPS = ["LT", "LE", "GE", "GT", "EQ", "NEQ"]
+OBS_CONTEXTS = ["po-observation", "po-goal"]
+QUERY_CONTEXTS = [("AG", "A[] %s"), ("EF", "E<> %s"), ("AF", "A<> %s"), ("EG", "E[] %s"), ("leadsto-l", "%s --> b"), ("leadsto-r", "b --> %s"),
+                  ("control-AF", "control: A<> %s"), ("control-AG", "control: A[] %s"), ("control-until", "control: A[ %s U b ]"),
+                  ("ef-control", "E<> control: A<> %s"),
+                  ("po-observation", "{ %s } control: A<> b"), ("po-observation-2nd", "{ b, %s } control: A[] b"),
+                  ("po-observation-nested", "{ b && %s } control: A<> b"), ("po-goal", "{ b } control: A<> %s"),
+                  ("sup", "sup{ %s }: i"), ("inf", "inf{ b }: %s")]
 IIF_CONDS = ["b", "i", "(x < 3)", "(x == 3)", "d", "s", "(x != 3)"]
 
 
@@ -96,7 +133,7 @@ def declarations():
         fs.append("void f_%s(%s) { }" % (n, byref))
         if bycref:
             fs.append("void g_%s(%s) { }" % (n, bycref))
-    return DECLS % {"functions": "\n".join(fs)}
+    return DECLS % {"functions": "\n".join(fs), "spelled": "\n".join(SPELLED_DECLS)}
 
 
 # ------------------------------------------------------------------------------------------------ type dumps -> wire format
@@ -266,9 +303,40 @@ def gen_jobs(ctx):
         jobs.append({"cls": "un", "op": "RATE", "a": a[1], "scope": a[0], "text": "(%s)'" % a[1]})
         for qop, kw in (("FORALL", "forall"), ("EXISTS", "exists"), ("SUM", "sum")):
             jobs.append({"cls": "q", "op": qop, "a": a[1], "scope": a[0], "text": "%s (qk : int[0,1]) (%s)" % (kw, a[1])})
+    # (6) the differently spelled bounds: every ordered pair of the family under the symmetric operators and areEquivalent
+    #     (the calls f_<member>(<member>) are part of (3): the family is in the pool and in REFPARAMS)
+    fam = [v for v, _ in SPELLED]
+    for a in fam:
+        for b_ in fam:
+            for op in SYM_OPS:
+                jobs.append({"cls": "bin", "op": op, "a": a, "b": b_, "scope": "-"})
+            jobs.append({"cls": "eqv", "a": a, "b": b_, "sa": "-", "sb": "-"})
+    # (7) the symmetric operators inside queries, both orders (quick tier: every pair under == and !=, the comparisons that the
+    #     observation rules look at; the other operators on a random third of the pairs)
+    for cname, ctx_text in QUERY_CONTEXTS:
+        for ia, pa in enumerate(QUERY_OPERANDS):
+            for pb in QUERY_OPERANDS[ia:]:
+                for op in SYM_OPS:
+                    if not ctx.thorough and op not in ("EQ", "NEQ") and r.random() > 0.34:
+                        continue
+                    for (p, kp), (q, kq) in ((pa, pb), (pb, pa))[:1 if pa == pb else 2]:
+                        jobs.append({"cls": "qry", "op": op, "a": p, "b": q, "ka": kp, "kb": kq, "ctx": cname,
+                                     "text": ctx_text % ("(%s) %s (%s)" % (p, OP_TEXT[op], q))})
+    # (8) the comparisons as observation and as goal of `{..} control:`, operands without a comparison of their own: the verdict of
+    #     the library against the regenerated rules obsInvalid / obsDifference (the operand types come from the `bin` job of the pair)
+    atoms = [o for o, k in QUERY_OPERANDS if k != "GUARD"]
+    for op in OBS_OPS:
+        for a in atoms:
+            for b_ in atoms:
+                jobs.append({"cls": "bin", "op": op, "a": a, "b": b_, "scope": "-"})
+                for cname in OBS_CONTEXTS:
+                    jobs.append({"cls": "obs", "op": op, "a": a, "b": b_, "ctx": cname,
+                                 "text": dict(QUERY_CONTEXTS)[cname] % ("(%s) %s (%s)" % (a, OP_TEXT[op], b_))})
     for jb in jobs:
         if jb["cls"] == "bin":
             jb["line"] = "X %s (%s) %s (%s)" % (jb["scope"], jb["a"], OP_TEXT[jb["op"]], jb["b"])
+        elif jb["cls"] in ("qry", "obs"):
+            jb["line"] = "Y - " + jb["text"]
         elif jb["cls"] == "iif":
             jb["line"] = "X %s %s(%s) ? (%s) : (%s)" % (jb["scope"], "!" if jb["neg"] else "", jb["c"], jb["a"], jb["b"])
         elif jb["cls"] == "call":
@@ -354,6 +422,12 @@ def correspond(ctx, jobs, wire):
     reqs = {}
     skipped = []
     for jb in jobs:
+        if jb["cls"] == "qry":
+            jb["req"] = None    # queries are judged by the oracle only (query_answers)
+            continue
+        if jb["cls"] == "obs":
+            jb["req"] = None    # needs the operand types of its `bin` twin: second pass below
+            continue
         if jb["impl"].startswith("noparse") or jb["impl"] == "bad-op":
             jb["req"] = None
             skipped.append(jb)
@@ -369,6 +443,18 @@ def correspond(ctx, jobs, wire):
             skipped.append(jb)
             continue
         reqs.setdefault(jb["req"], None)
+    twins = {(jb["op"], jb["a"], jb["b"]): jb for jb in jobs if jb["cls"] == "bin" and jb.get("x") and jb.get("scope") == "-"}
+    for jb in jobs:
+        if jb["cls"] != "obs":
+            continue
+        tw = twins.get((jb["op"], jb["a"], jb["b"]))
+        try:
+            if tw is not None and len(tw["x"]["kids"]) == 2 and "impl_ans" in jb:
+                jb["req"] = "obs %s %s | %s" % (jb["op"], wire.text(tw["x"]["kids"][0]), wire.text(tw["x"]["kids"][1]))
+                reqs.setdefault(jb["req"], None)
+        except Unmodelled as ex:
+            jb["unmodelled"] = str(ex)
+            skipped.append(jb)
     keys = list(reqs)
     rc, out, err, dt = core.run_exe(core.lean_exe("drv_c14"), [], stdin_text="\n".join(keys) + "\n", timeout=1500)
     lines = out.split("\n")
@@ -383,6 +469,10 @@ def correspond(ctx, jobs, wire):
             continue
         n += 1
         jb["model"] = reqs[jb["req"]]
+        if jb["cls"] == "obs":
+            if jb["model"] != jb["impl_ans"].split()[0]:
+                dis.append(jb)
+            continue
         try:
             jb["impl_ans"] = impl_answer(jb, wire)
         except Unmodelled as ex:
@@ -390,6 +480,23 @@ def correspond(ctx, jobs, wire):
         if jb["model"] != jb["impl_ans"]:
             dis.append(jb)
     return n, len(keys), dis, skipped
+
+
+Y_RE = re.compile(r'^q ok=(\d) nprop=(\d+) nerr=(\d+) exc="(.*?)" msgs=(.*)$')
+
+
+def query_answers(jobs):
+    """the library's verdict on every query job: accepted, or rejected with its diagnostics / the exception it ended in"""
+    bad = []
+    for jb in jobs:
+        if jb["cls"] not in ("qry", "obs"):
+            continue
+        m = Y_RE.match(jb["impl"])
+        if not m:
+            bad.append(jb)
+            continue
+        jb["impl_ans"] = "ok" if m.group(1) == "1" else "rej " + (m.group(4) or m.group(5))
+    return bad
 
 
 # ------------------------------------------------------------------------------------------------ the property, on verdicts
@@ -437,6 +544,8 @@ def oracle(jobs, field):
             seen[("bin", jb["op"], jb["a"], jb["b"])] = jb
         elif jb["cls"] == "iif" and jb["c"] in ("b", "i"):
             seen[("iif", jb["c"], jb["neg"], jb["a"], jb["b"])] = jb
+        elif jb["cls"] == "qry":
+            seen[("qry", jb["ctx"], jb["op"], jb["a"], jb["b"])] = jb
     for key, jb in seen.items():
         if key[0] == "bin":
             other = seen.get(("bin", key[1], key[3], key[2]))
@@ -447,6 +556,17 @@ def oracle(jobs, field):
                 k1, k2 = term_of_operands(jb)
                 fk = "bin:%s:%s/%s" % (key[1], k1, k2)
                 out.setdefault(fk, ("`%s` -> %s but `%s` -> %s" % (jb["line"][2:], jb[field], other["line"][2:], other[field]),
+                                    {"first": jb["line"], "second": other["line"], "answers": [jb[field], other[field]],
+                                     "jobs": [jobrec(jb), jobrec(other)]}))
+        elif key[0] == "qry":
+            # a query is accepted with `a op b` exactly when it is accepted with `b op a`
+            other = seen.get(("qry", key[1], key[2], key[4], key[3]))
+            if other is None or (key[3], key[4]) > (key[4], key[3]):
+                continue
+            acc1, acc2 = jb[field].startswith("ok"), other[field].startswith("ok")
+            if acc1 != acc2:
+                fk = "query:%s:%s:%s/%s" % ((key[1], key[2]) + tuple(sorted([jb["ka"], jb["kb"]])))
+                out.setdefault(fk, ("query `%s` -> %s but `%s` -> %s" % (jb["text"], jb[field], other["text"], other[field]),
                                     {"first": jb["line"], "second": other["line"], "answers": [jb[field], other[field]],
                                      "jobs": [jobrec(jb), jobrec(other)]}))
         else:
@@ -529,6 +649,9 @@ FULL = "int[-32768,32767]"
 DECLARED_INT = {"i": FULL, "j": FULL, "mi": FULL, "pri": FULL, "li": FULL, "bi": "int[0,3]", "bi2": "int[0,3]", "ti": "int[0,3]",
                 "prbi": "int[0,3]", "bj": "int[1,5]"}
 PARAM_INT = {"int": FULL, "bi": "int[0,3]", "ti": "int[0,3]", "bj": "int[1,5]"}
+# the spelled family: a bound is the expression as written, so the declared types coincide exactly when their texts do
+DECLARED_INT.update({v: t for v, t in SPELLED if t})
+PARAM_INT.update({v: t for v, t in SPELLED if t})
 
 
 # which oracle findings are the failing inputs of which broken lemma / theorem (by name prefix)
@@ -537,7 +660,8 @@ EXPLAINS = {"body_W": ["equiv-wrapper", "refparam", "bin:EQ", "bin:NEQ"], "sst":
             "isSameScalarType_symm": ["equiv-wrapper", "refparam", "bin:EQ", "bin:NEQ"],
             "areEquivalent": ["equiv-wrapper", "refparam", "bin:EQ", "bin:NEQ"], "areEqCompatible": ["bin:EQ", "bin:NEQ"],
             "typeBin_EQ": ["bin:EQ"], "typeBin_NEQ": ["bin:NEQ"], "typeBin": ["bin:"], "iif_core": ["inlineif"], "inlineIf": ["inlineif"],
-            "AC_term": ["inlineif"], "refParam": ["refparam"], "kindExceptions": ["inlineif-kind"]}
+            "AC_term": ["inlineif"], "refParam": ["refparam"], "kindExceptions": ["inlineif-kind"],
+            "obsRejected": ["query:po-"], "observation_verdict": ["query:po-"]}
 
 COARSE = {"INT": "integral", "BOOL": "integral", "CLOCK": "clock", "DIFF": "number", "DOUBLE": "number", "INVARIANT": "constraint",
           "INVARIANT_WR": "constraint", "GUARD": "constraint", "CONSTRAINT": "constraint", "RATE": "constraint"}
@@ -548,7 +672,7 @@ def coarse(k):
 
 
 def jobrec(jb):
-    return {k: jb[k] for k in ("cls", "op", "a", "b", "c", "neg", "scope", "f", "param", "sa", "sb", "line", "text") if k in jb}
+    return {k: jb[k] for k in ("cls", "op", "a", "b", "c", "neg", "scope", "f", "param", "sa", "sb", "line", "text", "ctx", "ka", "kb") if k in jb}
 
 
 def term_of_operands(jb):
@@ -600,6 +724,10 @@ def run(ctx):
                     dict(herr, declarations=decls))
         return
     ctx.log("harness answered %d ops in %.1fs" % (len(jobs), dt))
+    badq = query_answers(jobs)
+    if badq:
+        ctx.finding("unproved:harness-protocol", "%d query ops were not answered in the expected form, first: %s -> %s" % (
+            len(badq), badq[0]["line"], badq[0]["impl"]), {"cases": [(b["line"], b["impl"]) for b in badq[:20]]}, no_input=True)
     wire = Wire(typeclauses.tk_names(core.VERIF))
     have_model = tie_ok and os.path.exists(core.lean_exe("drv_c14"))
     if have_model and not proof_ok:
@@ -701,7 +829,7 @@ def run(ctx):
     kinds_hit = set()
     for jb in jobs:
         by_cls[jb["cls"]] = by_cls.get(jb["cls"], 0) + 1
-        if jb.get("impl_ans", "rej") != "rej":
+        if not jb.get("impl_ans", "rej").startswith("rej"):
             acc += 1
         x = jb.get("x")
         if x:
@@ -749,8 +877,11 @@ def replay(ctx, path):
         print(herr)
         return 1
     wire = Wire(typeclauses.tk_names(core.VERIF))
+    query_answers(jobs)
     for jb in jobs:
         print(jb["line"], "\n   ->", jb["impl"])
+        if jb["cls"] == "qry":
+            continue
         try:
             if model_line(jb, wire) is not None:
                 jb["impl_ans"] = impl_answer(jb, wire)
